@@ -233,6 +233,30 @@ def vc_enumerate(x, start=0):
     return builtins.enumerate(x, start)
 
 
+class ZipSeq:
+    """zip over sequences of which at least one has a symbolic length: iterable only through a loop contract"""
+
+    def __init__(self, seqs):
+        self.seqs = seqs
+
+    def _vc_iter(self):
+        from .engine import SeqIter
+        n = None
+        for q in self.seqs:
+            ln = zi(vc_len(q))
+            n = ln if n is None else z3.If(ln < n, ln, n)
+        return SeqIter(n, lambda i: builtins.tuple(q[SInt(i)] for q in self.seqs))
+
+    def __iter__(self):
+        raise OutOfSubset('zip over a symbolic sequence needs a loop contract')
+
+
+def vc_zip(*seqs):
+    if builtins.any(isinstance(q, Sym) for q in seqs):
+        return ZipSeq(seqs)
+    return builtins.zip(*seqs)
+
+
 def vc_round(x, nd=None):
     if isinstance(x, Sym):
         raise OutOfSubset('round of symbolic')
@@ -317,7 +341,7 @@ def make_globals():
     b = {k: getattr(builtins, k) for k in SAFE_BUILTINS if hasattr(builtins, k)}
     b.update(len=vc_len, range=vc_range, isinstance=vc_isinstance, int=vc_int, float=vc_float, bool=vc_bool, abs=vc_abs,
              min=vc_min, max=vc_max, sum=vc_sum, sorted=vc_sorted, list=vc_list, tuple=vc_tuple, set=vc_set,
-             enumerate=vc_enumerate, round=vc_round)
+             enumerate=vc_enumerate, round=vc_round, zip=vc_zip)
     b['__name__'] = 'pyvc_analysed'
     g = {'__builtins__': b, 'math': _Math, 'operator': _operator, 'ceil': _Math.ceil}
     return g
